@@ -44,40 +44,32 @@ Definition kahn (f : revision -> list N) (G:graph) : option (list N) :=
 
 Definition covers (G:graph) (a b : list N) : bool := subsetN (ids G) (interN a b).
 
+(* one reachability stage of _detect_cycles: `if not heads or not bases: raise`, then
+   total_space = reach(down, heads) & reach(nextrev, bases); `if set(rev_map) - total_space: raise` *)
+Definition reach_check (G:graph) (dn up : N -> list N) (hs bs : list N) (e:load_err) : option load_err :=
+  match hs, bs with
+  | [], _ => Some e
+  | _, [] => Some e
+  | _, _ => match reach_set dn G hs, reach_set up G bs with
+            | Some a, Some b => if covers G a b then None else Some e
+            | _, _ => Some EFuel
+            end
+  end.
+Definition kahn_check (f : revision -> list N) (G:graph) (e:load_err) : option load_err :=
+  match kahn f G with
+  | None => Some EFuel
+  | Some [] => None
+  | Some (_ :: _) => Some e
+  end.
+Definition first_err (a b : option load_err) : option load_err := match a with Some e => Some e | None => b end.
+
 Definition detect_cycles (G:graph) : option load_err :=
   match G with
   | [] => None
   | _ =>
-    let heads := heads_of G in let bases := bases_of G in
-    match heads, bases with
-    | [], _ | _, [] => Some ECycle
-    | _, _ =>
-      match reach_set (down G) G heads, reach_set (nextrev G) G bases with
-      | Some a, Some b =>
-        if negb (covers G a b) then Some ECycle else
-        let rheads := real_heads_of G in let rbases := real_bases_of G in
-        match rheads, rbases with
-        | [], _ | _, [] => Some EDepCycle
-        | _, _ =>
-          match reach_set (all_down G) G rheads, reach_set (all_nextrev G) G rbases with
-          | Some a', Some b' =>
-            if negb (covers G a' b') then Some EDepCycle else
-            match kahn r_down G with
-            | None => Some EFuel
-            | Some (_ :: _) => Some ECycle
-            | Some [] =>
-              match kahn all_down_r G with
-              | None => Some EFuel
-              | Some (_ :: _) => Some EDepCycle
-              | Some [] => None
-              end
-            end
-          | _, _ => Some EFuel
-          end
-        end
-      | _, _ => Some EFuel
-      end
-    end
+    first_err (reach_check G (down G) (nextrev G) (heads_of G) (bases_of G) ECycle)
+   (first_err (reach_check G (all_down G) (all_nextrev G) (real_heads_of G) (real_bases_of G) EDepCycle)
+   (first_err (kahn_check r_down G ECycle) (kahn_check all_down_r G EDepCycle)))
   end.
 
 Definition load (G:graph) : load_res :=
